@@ -72,11 +72,11 @@ P = {
 
 # additions for the rules built after the second seeding round: (technique, decided) appended to the entries above
 ADD = {
- "C01": ("declaration-binding step order; relational-operator operand order and LeftFirst flag; enumeration-under-mutation rule",
-         "Function entry binds parameters, then the arguments object, then function declarations, then vars (ES5 10.5); each relational arm passes its operands in the prescribed order with the prescribed LeftFirst flag; no writer shifts the property-order list in place under a running enumeration."),
- "C02": ("typestate of the accessor placeholder; unchecked-assertion census extended to parser/ast/file; typed-nil census; constant-index guard rule in the parser; prototype payload agreement",
-         "The placeholder object nilGetSetObject never reaches the property table; no unchecked type assertion in the parser packages can fail on script-supplied text (Function constructor). Every constant index or slice bound on parser input is dominated by a length test that covers it; the internal value of each primitive-wrapper / Date / RegExp prototype has the Go type its constructor stores."),
- "C03": ("interprocedural typestate analysis of the allowIn flag; restricted-production rule; dead flag-store rule",
+ "C01": ("identifier-resolution environment rule; declaration-binding step order; relational-operator operand order and LeftFirst flag; enumeration-under-mutation rule",
+         "Identifier resolution starts at the LexicalEnvironment at every call site. Function entry binds parameters, then the arguments object, then function declarations, then vars (ES5 10.5); each relational arm passes its operands in the prescribed order with the prescribed LeftFirst flag; no writer shifts the property-order list in place under a running enumeration."),
+ "C02": ("recover-handler analysis of the API boundary; nil function-field contradiction rule; typestate of the accessor placeholder; unchecked-assertion census extended to parser/ast/file; typed-nil census; constant-index guard rule in the parser; prototype payload agreement",
+         "The code that turns a caught value into an error makes no call that can throw again; no function field some literal leaves nil is called without a nil test. The placeholder object nilGetSetObject never reaches the property table; no unchecked type assertion in the parser packages can fail on script-supplied text (Function constructor). Every constant index or slice bound on parser input is dominated by a length test that covers it; the internal value of each primitive-wrapper / Date / RegExp prototype has the Go type its constructor stores."),
+ "C03": ("interprocedural typestate analysis of the allowIn flag; restricted-production rule; dead flag-store rule (also per call site); member-suffix ladder rule; Idx/offset unit rule",
          "After return/break/continue/throw and before a postfix ++/-- the operand is taken only when the scanner saw no line terminator (7.9.1). Every place the grammar says Expression/AssignmentExpression is entered only with allowIn=true, the for initialiser only with false, and every writer of the flag restores it; no store to a scanner/parser flag is overwritten before it can be read."),
  "C04": ("totality proof of the span methods (every parser store into an indexed slice field proved non-empty); position-field reader/writer agreement; typed-nil census; early-error rule for regular expression literals; constant-index guard rule",
          "Idx0/Idx1 of every node type are total on the trees the parser builds and every position field they read is set at every construction site; no possibly-nil pointer is converted to a node interface. A regular expression literal is translated and compiled at parse time and both errors are reported; constant indexing of parser input is length-guarded."),
@@ -90,14 +90,14 @@ ADD = {
          "slice/splice/join/sort arguments are converted / defaulted as their clauses say; pop push shift splice unshift end every path with Put(length, n, true); indexOf/lastIndexOf compare with ===."),
  "C09": ("undefined-default rule; argument-conversion table; exotic [[GetOwnProperty]] fallback",
          "String.prototype position/length/limit arguments get the conversion of their clause and undefined takes the default; String objects' own-property lookup consults ordinary properties first."),
- "C10": ("undefined-default rule for the RegExp constructor; argument-conversion table (exec/test/match/replace/search/split)", "RegExp(pattern, flags) treats undefined as empty; the regexp built-ins convert their string arguments with ToString and split's limit with ToUint32."),
+ "C10": ("sibling agreement of the pattern translator's top-level and group loops; undefined-default rule for the RegExp constructor; argument-conversion table (exec/test/match/replace/search/split)", "RegExp(pattern, flags) treats undefined as empty; the regexp built-ins convert their string arguments with ToString and split's limit with ToUint32."),
  "C11": ("Str step-order rule", "In JSON.stringify's walker toJSON is applied before the replacer function is called (15.12.3 Str steps 2-3)."),
  "C12": ("setter table executed for every argument count; UTC/local sibling rule; argument-conversion table; dead NaN-test contradiction rule", "Each Date.prototype.set* method assigns, for k arguments, exactly the first k time fields of its ES5 list from the arguments of the same position, with the argument limit and the zone flag of its name; UTC getters never convert to local time and local getters always do. Date constructor / Date.UTC / set* arguments are converted with ToNumber (not a NaN-absorbing conversion); no NaN test is applied to a value that can no longer be NaN."),
  "C13": ("argument-conversion table for Math and the global functions; signed-zero obligation for max/min; dead NaN-test rule", "Every Math function converts every argument with ToNumber and nothing else; Math.max/min order +0 above -0 (math.Max/Min or a sign-bit test)."),
  "C14": ("prototype payload agreement", "Boolean/Number/String/Date/RegExp.prototype hold an internal value of the Go type their constructor stores."),
  "C15": ("wrapping-conversion census", "Every conversion from an unsigned 64-bit-wide integer to a signed one is range-guarded or reviewed."),
  "C16": ("two-sided range test in every integer arm of toReflectValue; wrapping-conversion census; captured-buffer rule for native function closures", "No bridged call shares an argument buffer allocated outside the per-call closure; unsigned-to-signed 64-bit conversions are range-guarded."),
- "C17": ("copy-loop exhaustion rule; File immutability", "No copy loop in a clone function leaves early; a file.File is never written after construction."),
+ "C17": ("copy-loop exhaustion rule; File immutability; Otto.Copy freshness", "No copy loop in a clone function leaves early; a file.File is never written after construction."),
  "C19": ("frame-address escape rule", "Error traces and Context stack traces hold value copies of frames: the address of a live scope's frame is never stored, appended or passed on; the copy's error prototypes are wired positionally."),
  "C20": ("File immutability; frame-address escape rule; captured-buffer rule", "A Script's file.File is never written after construction (no lazily filled cache); no native closure writes a buffer captured from outside."),
 }
